@@ -19,7 +19,7 @@ RULE = (
 )
 ASSUME = ["dns.resolver.resolve / dns.asyncresolver.resolve are the library's DNS entry points (seam)"]
 BOUND = {"quick": "all 66,429 ordered lists, both flavours", "thorough": "same + full weight domain {0,1,65535} variant"}
-DOMAINS = ["domain.test", "sub.corp.example.com", "x", None, ""]  # "" must behave like None (bare prefix through the search list) in both flavours
+DOMAINS = ["domain.test", "sub.corp.example.com", "x", None, "", "CORP.TEST", "Corp.Example.Com", "xn--bcher-kva.example", "a-b_c.d0"]  # "" must behave like None (bare prefix through the search list) in both flavours
 SID = "S-1-5-21-1-2-3-1104"
 
 
@@ -246,7 +246,7 @@ def run_shard(shard, tier, seed, acc) -> None:
         it = itertools.product(PW, repeat=k) if first is None else ((PW[first],) + rest for rest in itertools.product(PW, repeat=k - 1))
         variant_base = 2 if shard[0] == "lists65535" else 0
         for pw in it:
-            judge(acc, pw, DOMAINS[n % 5], variant_base + (n // 4) % 2)
+            judge(acc, pw, DOMAINS[n % len(DOMAINS)], variant_base + (n // 4) % 2)
             n += 1
         acc.ev(n)
         acc.nt_counted(n if k > 1 else 0)
@@ -259,7 +259,7 @@ def run_shard(shard, tier, seed, acc) -> None:
         for k in (1, 2, 3):
             for pw in itertools.product(PW, repeat=k):
                 for variant in (2, 3):
-                    judge(acc, pw, DOMAINS[n % 5], variant)
+                    judge(acc, pw, DOMAINS[n % len(DOMAINS)], variant)
                     n += 1
         acc.ev(n)
         acc.nt_counted(n)
@@ -270,7 +270,7 @@ def run_shard(shard, tier, seed, acc) -> None:
         for k in (2, 3):
             for pw in itertools.product(PW, repeat=k):
                 for variant in (4, 5, 6):
-                    judge(acc, pw, DOMAINS[n % 5], variant)
+                    judge(acc, pw, DOMAINS[n % len(DOMAINS)], variant)
                     n += 1
         acc.ev(n)
         acc.nt_counted(n)
@@ -305,8 +305,8 @@ def run_shard(shard, tier, seed, acc) -> None:
             recs = records_for(pw, i % 2)
             best = min((p, -w) for p, w, _, _ in recs)
             ok_targets = {x[3].rstrip(".") for x in recs if (x[0], -x[1]) == best}
-            dom = ["domain.test", "corp.example", "emea.corp.test"][i % 3]
-            forest = [dom, dom, "corp.test"][i % 3]  # a child domain: the blob's forest name is not its domain name - the lookup is for the DOMAIN
+            dom = ["domain.test", "corp.example", "emea.corp.test", "CORP.Example", "EMEA.corp.TEST"][i % 5]
+            forest = [dom, dom, "corp.test", dom, "corp.test"][i % 5]  # a child domain: the blob's forest name is not its domain name - the lookup is for the DOMAIN
             blob = cms.ref_encrypt(rk, SID, b"c20", (361, 3, 5), cek=d.bytes(32), gcm_nonce_=d.bytes(12), key_nonce=d.bytes(32), domain=dom, forest=forest)
             for flavour in ("sync", "async"):
                 for op in ("unprotect", "protect"):
